@@ -42,6 +42,10 @@ Definition run_phase (c : dcfg) (s : dstate) (p : phase) : dstate :=
 
 Definition result_of (s : dstate) (t : N) : option xres :=
   match tp s t with TDone r _ _ _ _ => Some r | _ => None end.
+(* logical duration of the dial in the run of the transition system (ms): return time - (deadline - timeout) *)
+Definition elapsed_of (s : dstate) (t to : N) : option N :=
+  match tp s t with TDone _ dl _ _ at_ => Some (at_ - (dl - to)) | _ => None end.
+Definition close_ms (a b : N) : bool := (a <=? b + slack_ms) && (b <=? a + slack_ms).
 
 Fixpoint dial_corr (c : dcfg) (s : dstate) (phases : list phase) : bool :=
   match phases with
@@ -49,7 +53,8 @@ Fixpoint dial_corr (c : dcfg) (s : dstate) (phases : list phase) : bool :=
   | p :: rest =>
       let s' := run_phase c s p in
       forallb (fun d : dobs => match d with
-                           | (t, _, Ret r, _) => option_eqb xres_eqb (result_of s' t) (Some r)
+                           | (t, to, Ret r, el) => option_eqb xres_eqb (result_of s' t) (Some r) &&
+                                                   match elapsed_of s' t to with Some m => close_ms m el | None => false end
                            | (_, _, Stuck, _) => false    (* every dial of the transition system run returns *)
                            end) (ph_results p)
       && (sem s' =? 0) && dial_corr c s' rest
